@@ -29,6 +29,9 @@ type liveCase struct {
 	LatName string        `json:"latency_per_leg,omitempty"`
 	// Window > 0: deviations are only explored during [From, From+Window) (used for the deeper bound)
 	From, Window time.Duration
+	// SlowApp: the server application needs I + T/2 for every client message: a POST of the session is in flight for
+	// longer than a whole heartbeat period while pings are answered
+	SlowApp bool
 }
 
 func (c liveCase) dur() time.Duration { return 5 * (c.C.I + c.C.T) }
@@ -46,6 +49,9 @@ func (c liveCase) name() string {
 	if c.Window > 0 {
 		s += fmt.Sprintf("/window=%v+%v", c.From, c.Window)
 	}
+	if c.SlowApp {
+		s += "/server-application-takes-I+T/2-per-message"
+	}
 	return s
 }
 
@@ -59,6 +65,9 @@ func liveScenario(c liveCase, bound int) *vx.Scenario {
 		if err != nil {
 			e.HarnessErr = "set-up failed: " + err.Error()
 			return nil
+		}
+		if c.SlowApp {
+			p.slowServerApp = c.C.I + c.C.T/2
 		}
 		var sent []string
 		if c.Window == 0 {
@@ -80,6 +89,9 @@ func liveScenario(c liveCase, bound int) *vx.Scenario {
 					}
 					if at > D-c.C.I/2-8*c.Lat {
 						return // the last message must have time to arrive before the observation ends
+					}
+					if c.SlowApp && (j > 2 || at > D-2*(c.C.I+c.C.T)) {
+						return // two slow messages are enough (each keeps a POST in flight for I + T/2)
 					}
 					if d := at - e.Clock(); d > 0 {
 						vsched.Sleep(d)
@@ -142,6 +154,7 @@ func liveCases(c itCfg) []liveCase {
 	out = append(out, liveCase{C: c, Lat: c.T / 8, LatName: "T/8"})
 	out = append(out, liveCase{C: c, Lat: c.T / 8, LatName: "T/8", Sender: "client", PhiName: "0"})
 	out = append(out, liveCase{C: c, Lat: c.T / 8, LatName: "T/8", Sender: "server", PhiName: "0"})
+	out = append(out, liveCase{C: c, Sender: "client", Phi: c.I / 2, PhiName: "I/2", SlowApp: true})
 	return out
 }
 
